@@ -1,11 +1,13 @@
 import Drv.EvalCase
 import VrpModel.C06Multi
+import Drv.C06Iv
 open Lean Drv Route C06 Drv.EvalCase
 
 namespace Drv.C06
 
 def handle (j : Json) : R (List (String × Json)) := do
   let k ← strF j "k"
+  if k == "iv" then return ← Drv.C06Iv.handle j
   let c ← parseCtx j
   let dims := c.cap.length
   let impl ← fld j "impl"
